@@ -151,6 +151,38 @@ impl Scenario for C16 {
                 hashes,
             };
         }
+        // rarely: a huge structure (up to 1.3 M nodes deep or long), built directly as bytes
+        if rng.chance(1, if thorough { 20_000 } else { 150_000 }) {
+            let n = *rng.pick(&[70_000usize, 300_000, 600_000, 1_100_000, 1_300_000]);
+            let atom: Vec<u8> = match rng.below(3) {
+                0 => vec![0x80],
+                1 => vec![0x2a],
+                _ => vec![0x82, 0x01, 0x02],
+            };
+            let mut bytes: Vec<u8> = Vec::with_capacity(n * 4);
+            if rng.bool() {
+                // left-nested: ff ff ff ... a a a a
+                bytes.resize(n, 0xff);
+                for _ in 0..=n {
+                    bytes.extend_from_slice(&atom);
+                }
+            } else {
+                // a list: (ff a)* 80
+                for _ in 0..n {
+                    bytes.push(0xff);
+                    bytes.extend_from_slice(&atom);
+                }
+                bytes.push(0x80);
+            }
+            if rng.chance(1, 4) {
+                bytes.pop(); // truncated by one byte
+            }
+            return Case16 {
+                bytes,
+                sched: IoSchedule::clean(),
+                hashes: rng.bool(),
+            };
+        }
         let mut cfg = TreeCfg::swarm(rng, thorough);
         if !thorough {
             cfg.max_leaves = cfg.max_leaves.min(150);
@@ -448,7 +480,7 @@ impl Scenario for C16 {
         json!({"bytes": hex_short(&case.bytes), "len": case.bytes.len(), "reader_steps": case.sched.steps.len(), "hard_fault": format!("{:?}", case.sched.hard), "hashes": case.hashes})
     }
     fn rule() -> &'static str {
-        "case = a byte string (first 65,793 runs: every string of length <=2; thorough: 1/16 of the 3-byte strings; then classic serializations of seeded trees under storage-fault mutations: bit flip, byte overwrite, truncation at token boundaries +-1, dropped/duplicated range, splice, trailing bytes, random) + a reader schedule (short reads, EINTR; 40% with EOF or an I/O error armed at an offset near a token boundary). Three clients decode it: node_from_bytes and tree_hash_from_stream on contiguous bytes, parse_triples through the simulated reader (and contiguously as its own reference). Non-trivial: >=2 triples or >=3 input bytes; distinct = fingerprints of (input bytes, acceptance, fault counts)."
+        "case = a byte string (first 65,793 runs: every string of length <=2; thorough: 1/16 of the 3-byte strings; 1 in 150,000 (thorough 1 in 20,000): a structure of 70 k .. 1.3 M nodes, left-nested or a list; otherwise classic serializations of seeded trees under storage-fault mutations: bit flip, byte overwrite, truncation at token boundaries +-1, dropped/duplicated range, splice, trailing bytes, random) + a reader schedule (short reads, EINTR; 40% with EOF or an I/O error armed at an offset near a token boundary). Three clients decode it: node_from_bytes and tree_hash_from_stream on contiguous bytes, parse_triples through the simulated reader (and contiguously as its own reference). Non-trivial: >=2 triples or >=3 input bytes; distinct = fingerprints of (input bytes, acceptance, fault counts)."
     }
     fn default_runs(tier: Tier) -> u64 {
         match tier {
